@@ -8,6 +8,8 @@ package rtpconn
 import (
 	"errors"
 	"fmt"
+	"os"
+	"path/filepath"
 	"reflect"
 	"slices"
 	"sort"
@@ -108,7 +110,9 @@ type room struct {
 	st        roomStats
 	or        string            // oracle family: "C08","C10","C11","C14","C15","C12"
 	tokens    map[string]string // token -> group, tokens created through the harness
-	preTokens []string          // tokens made directly in the store at the start of the case (removed at its end)
+	desc      map[string]any    // the definition both groups were created with
+	flaps     int
+	preTokens []string // tokens made directly in the store at the start of the case (removed at its end)
 }
 
 func (r *room) opf(f string, a ...any) {
@@ -218,6 +222,7 @@ func newRoom(t *rapid.T, or string, nclients int) *room {
 			name = base + "a/sub"
 		}
 		writeGroupFile(name, desc)
+		r.desc = desc
 		r.groups[name] = &mGroup{name: name, members: map[string]*mMember{}, locked: cfg.autolock, data: map[string]any{}}
 		r.gnames = append(r.gnames, name)
 	}
@@ -250,7 +255,7 @@ func (r *room) checkQuiescent(step string) {
 		gname := r.where[sc.id]
 		// a terminated connection is never a member of anything
 		if sc.closed && gname != "" {
-			t.Fatalf("harness model error: closed client %s still in model group", sc.id)
+			t.Fatalf("harness model error: closed client %s (terminated by: %v) still in model group %s after %s [%s]", sc.id, r.s.terminated[sc], gname, step, strings.Join(r.st.ops[max(0, len(r.st.ops)-8):], " ; "))
 		}
 		realName := ""
 		if sc.c.group != nil {
@@ -1229,6 +1234,60 @@ func (r *room) allTokens() map[string]string {
 	return res
 }
 
+// doFlap: the definition file of a group that has members is, for a moment, unreadable (an in-place edit caught
+// half-way, a delete followed by a re-upload) while something asks for the group (a status page, a join attempt);
+// then it is back, unchanged in content.  The members, the lock and everything the admission rules look at stay.
+func (r *room) doFlap() {
+	t := r.t
+	var cand []string
+	for _, gn := range r.gnames {
+		if len(r.groups[gn].members) > 0 {
+			cand = append(cand, gn)
+		}
+	}
+	if len(cand) == 0 {
+		return
+	}
+	gn := rapid.SampledFrom(cand).Draw(t, "flapGroup")
+	fn := filepath.Join(group.Directory, filepath.FromSlash(gn)+".json")
+	how := rapid.SampledFrom([]string{"truncated", "missing"}).Draw(t, "flapHow")
+	if how == "truncated" {
+		os.WriteFile(fn, []byte(`{"users": {"op1": {"passw`), 0o600)
+	} else {
+		os.Remove(fn)
+	}
+	if _, err := group.Add(gn, nil); err == nil {
+		t.Fatalf("VERIF-HARNESS-ERROR: reloading a %s definition succeeded", how)
+	}
+	if rapid.Bool().Draw(t, "flapTwice") {
+		group.Add(gn, nil)
+	}
+	writeGroupFile(gn, r.desc)
+	if _, err := group.Add(gn, nil); err != nil {
+		t.Fatalf("VERIF-HARNESS-ERROR: reloading the restored definition: %v", err)
+	}
+	// the successful reload re-evaluates autolock/autokick, as every group.Add does
+	g := r.groups[gn]
+	noOps := true
+	for _, m := range g.members {
+		noOps = noOps && !has(m.perms, "op")
+	}
+	if noOps {
+		if r.cfg.autolock && !g.locked {
+			g.locked = true
+		}
+		if r.cfg.autokick && len(g.members) > 0 {
+			for mid := range g.members {
+				r.where[mid] = ""
+			}
+			g.members = map[string]*mMember{}
+		}
+	}
+	r.s.pump()
+	r.flaps++
+	r.opf("definition of %s %s for a moment (%d members)", gn, how, len(r.groups[gn].members))
+}
+
 // doMisc: identify / subgroups (need op).
 func (r *room) doMisc(sc *simClient) {
 	_, me := r.member(sc.id)
@@ -1384,6 +1443,8 @@ func (r *room) run(weights intentWeights, maxSteps int) {
 			r.doToken(sc)
 		case "misc":
 			r.doMisc(sc)
+		case "flap":
+			r.doFlap()
 		}
 		for _, o := range r.s.cs {
 			o.drain()
@@ -1432,6 +1493,7 @@ func (r *room) classes(rec *verifkit.Rec) {
 	rec.ClassN("spoofed_messages", r.st.spoofs)
 	rec.ClassN("privileged_attempts_by_non_members", r.st.refusedNonMember)
 	rec.ClassN("token_operations", r.st.tokenOps)
+	rec.ClassN("definition_unreadable_for_a_moment_with_members_present", r.flaps)
 	rec.ClassN("token_listings_in_a_subgroup_whose_parent_has_a_hierarchical_token", r.st.listInSubgroup)
 	rec.ClassN("token_listings_answered", r.st.listAnswered)
 	if len(r.preTokens) > 0 {
